@@ -135,7 +135,8 @@ Proof.
     { destruct f; cbn [value_ok] in Hv; [lia|exact I|exact I]. }
     rewrite fmt_nonempty by (auto; lia). rewrite try_number_float by auto. destruct f; reflexivity.
   - cbn [value_ok] in Hv. apply andb_true_iff in Hv. destruct Hv as [Hv _]. unfold nonnumeric in Hv.
-    apply andb_true_iff in Hv. destruct Hv as [H1 H2]. apply negb_true_iff in H1. rewrite H1.
+    apply andb_true_iff in Hv. destruct Hv as [H1 H2]. apply andb_true_iff in H1. destruct H1 as [H1 _].
+    apply negb_true_iff in H1. rewrite H1.
     cbn [try_make_number]. destruct (py_int (s2l s)); [discriminate|]. destruct (py_float (s2l s)); [discriminate|].
     reflexivity.
 Qed.
